@@ -17,7 +17,8 @@ LEVEL_TEXT = ("Clause-level static rules: (a) bound-polarity typing of interval<
               "scalar class answer the bottom/top cases correctly; (d) shape rules added for replayed defects: the corner form of the integer "
               "interval division (r1d), sign division (r6), sorted-list / TOP-BOT typestate / normalize-sentinel rules of dis_interval "
               "(r5, r7, r9), no truncating % on congruence residues (r8). Remainder, bitwise ranges and the numeric content of congruence "
-              "and disjunctive-interval arithmetic are otherwise NOT decided.")
+              "and disjunctive-interval arithmetic are otherwise NOT decided."
+              " A compound scalar abstraction lifts each of the 13 operations from the component operation of the same meaning; the case split of the integer division around 0 covers the operand.")
 ASSUMPTIONS = ["bound<Number> arithmetic (+, -, *, min, max with infinities) is correct", "z_number primitives keep their meaning (C20)"]
 
 II = "include/crab/domains/interval_impl.hpp"
